@@ -757,8 +757,11 @@ pub fn check(rec: &WRecord) -> WCheckOut {
 pub fn minimise(rec: &WRecord, class: &str, budget: usize) -> (WRecord, usize) {
     let mut best = rec.clone();
     let mut evals = 0usize;
+    // wall-clock cap per violation class: minimisation is a convenience, the verdict does not
+    // depend on it (long inputs in the debug profile cost a tenth of a second per candidate)
+    let deadline = std::time::Instant::now() + std::time::Duration::from_secs(25);
     let still = |cand: &WRecord, evals: &mut usize| -> bool {
-        if *evals >= budget {
+        if *evals >= budget || std::time::Instant::now() > deadline {
             return false;
         }
         *evals += 1;
@@ -873,7 +876,7 @@ pub fn minimise(rec: &WRecord, class: &str, budget: usize) -> (WRecord, usize) {
             }
         }
         let after = best.to_json().to_string().len();
-        if after >= before || evals >= budget {
+        if after >= before || evals >= budget || std::time::Instant::now() > deadline {
             break;
         }
     }
